@@ -28,3 +28,32 @@ Proof.
   split; [exact Hh|]. split; [exact Hm|]. split; [|split; assumption].
   rewrite Hs, Hh. reflexivity.
 Qed.
+
+(* Why [linv] across removal is stated for reachable ledgers and not operation by operation: RemovePosReward puts back
+   whatever record the delegate history holds under the block hash.  On a ledger that satisfies [linv] but whose history
+   entry is not the one ApplyPosReward wrote (here: a record listing owner 3 twice), the result violates [linv] - the
+   staked total still matches.  No reachable ledger has such an entry (Proofs/Replay2.v: RInv). *)
+Definition hist_wit : ledger :=
+  mkledger [] [(7, mkdlg 7 9 0 [mkfund 3 100 0])] 100 [(99, mkdlg 7 9 0 [mkfund 3 10 0; mkfund 3 20 0])] [] [] [].
+Definition hist_wit_out : sout := mksout OUT_COINBASE_POS 70 14 7.
+Definition hist_wit' : ledger :=
+  mkledger [] [(7, mkdlg 7 9 0 [mkfund 3 10 0; mkfund 3 20 0])] 30 [(99, mkdlg 7 9 0 [mkfund 3 10 0; mkfund 3 20 0])] [] [] [].
+
+Theorem remove_reward_needs_history :
+  linv hist_wit /\ remove_pos_reward hist_wit 99 hist_wit_out = Ok hist_wit' /\
+  SInv hist_wit' /\ ~ fnodup hist_wit'.
+Proof.
+  split; [|split; [vm_compute; reflexivity|split]].
+  - split; [|split].
+    + split; [repeat constructor|]. split; [repeat constructor|]. split; [reflexivity|vm_compute; reflexivity].
+    + intros id d Hg. unfold get_dlg, nget in Hg. cbn [dlgs hist_wit aget] in Hg.
+      destruct (id =? 7); [injection Hg as <-|discriminate]. cbn. repeat constructor. intros [].
+    + reflexivity.
+  - split; [repeat constructor|]. split; [repeat constructor|]. split; [reflexivity|vm_compute; reflexivity].
+  - intros H. specialize (H 7 _ eq_refl). cbn in H. inversion H as [|? ? Hn _]. apply Hn. left. reflexivity.
+Qed.
+
+Theorem reachable_example_linv :
+  let n := run cfg_verifnet 7 0 ex_n0 sr_ops in
+  top_h n = 2 /\ map b_hash (mchain n) = [4; 6] /\ linv (ldg n).
+Proof. destruct reachable_conserved_example as (Hh & Hm & _ & Hl). cbn zeta. split; [exact Hh|]. split; [exact Hm|exact Hl]. Qed.
